@@ -64,7 +64,7 @@ CHECKS = {
     "C09": (
         "univ", "model_checking",
         "breadth-first closure of the query term algebra under the real constructors ~ & |, every term evaluated on every point of a finite universe against an independent evaluator",
-        "Every term up to depth 1 over all atoms, depth 2 over 6/10 representatives, depth 3 over 3 representatives (thorough) is built by real constructor calls and evaluated on all 378 universe points; value must equal the reference evaluator's, be a bool, and no exception may escape.",
+        "Every term up to depth 1 over all atoms, depth 2 over 6/10 representatives, depth 3 over 3 representatives (thorough) is built by real constructor calls and evaluated on all 381 universe points (incl. time-less points and keys named like attributes of a query object); a query the DSL fails to construct counts as raising; value must equal the reference evaluator's, be a bool, and no exception may escape.",
         E3NOTE, "4/C09",
     ),
     "C10": (
@@ -112,7 +112,7 @@ CHECKS = {
     "C17": (
         "univ", "model_checking",
         "exhaustive enumeration of all ordered pairs of query terms of a closure of the term algebra; equality implies equal hash and equal truth vector",
-        "All ordered pairs of depth<=1 terms over a confusable vocabulary (35/72 atoms incl. the two folds of a repeated hour) and depth<=2 terms over 2/4 representatives: q1==q2 implies equal hash and identical evaluation on 381 points; commutativity of & and | for all ordered operand pairs (simple or compound); map-queries equal to nothing.",
+        "All ordered pairs of depth<=1 terms over a confusable vocabulary (35/72 atoms incl. the two folds of a repeated hour) and depth<=2 terms over 2/4 representatives: q1==q2 implies equal hash and identical evaluation on 384 points; commutativity of & and | for all ordered operand pairs (simple or compound); map-queries equal to nothing.",
         E3NOTE, "4/C17",
     ),
     "C18": (
